@@ -435,7 +435,7 @@ def build(tier, seed):
                     return False
                 names_now = [n for n, _ in contents(coll)]
                 others_same = tuple(x for x in freeze(reg) if x[0] != op) == tuple(x for x in st.before[0] if x[0] != op)
-                return r is None and names_now == before_names + ["rX", "rY"] and inner(coll)["rX"] is val(nw.d0) and others_same and \
+                return r is None and names_now == before_names + ["rX", "rY"] and inner(coll).get("rX") is val(nw.d0) and others_same and \
                     st.untouched(except_outer=True) and st.vars_hold_outer() and len(reg) == len(shape["decomps"]) + (0 if op in shape["decomps"] else 1)
             cs = Case(f"{shape_name}: add two rules to {op}", {"op_type": OP(op), "d0": rule_type("rX", shape), "d1": rule_type("rY", shape)},
                       ghost=ghost_for(shape), ensures=post_add, native_gen=native_gen_for(shape, {"d0": "rX", "d1": "rY"}, "op_type", op),
@@ -447,7 +447,7 @@ def build(tier, seed):
                 st = st_of(nw)
                 reg, fx = current(st)
                 want = dict((k, v) for k, v in st.before[1])
-                return r is None and fx[op] is val(nw.rule) and {k: id(v) for k, v in fx.items() if k != op} == {k: v for k, v in want.items() if k != op} \
+                return r is None and fx.get(op) is val(nw.rule) and {k: id(v) for k, v in fx.items() if k != op} == {k: v for k, v in want.items() if k != op} \
                     and st.untouched(except_fixed=True) and st.vars_hold_outer()
             contracts.append(FnContract(w, "_fix_decomp", [
                 Case(f"{shape_name}: fix {op}", {"op": OP(op), "rule": rule_type("rX", shape)}, ghost=ghost_for(shape), ensures=post_fix,
@@ -457,7 +457,7 @@ def build(tier, seed):
             def post_get_fixed(o, r, nw, op=op, shape=shape):
                 st = st_of(nw)
                 reg, fx = current(st)
-                return (r is fx[op] if op in shape["fixed"] else r is None) and st.untouched() and st.vars_hold_outer()
+                return (r is not None and r is fx.get(op) if op in shape["fixed"] else r is None) and st.untouched() and st.vars_hold_outer()
             contracts.append(FnContract(w, "get_fixed_decomp", [
                 Case(f"{shape_name}: {op}", {"op": OP(op)}, ghost=ghost_for(shape), ensures=post_get_fixed,
                      native_gen=native_gen_for(shape, None, "op", op), native_call=native_call_for("get_fixed_decomp", ["op"]), size_bounded=True)]))
@@ -469,7 +469,7 @@ def build(tier, seed):
                 if not is_coll(r):
                     return False
                 if op in shape["fixed"]:
-                    return [n for n, _ in contents(r)] == [shape["fixed"][op]] and inner(r)[shape["fixed"][op]] is fx[op] and st.untouched() and \
+                    return [n for n, _ in contents(r)] == [shape["fixed"][op]] and inner(r).get(shape["fixed"][op]) is fx.get(op) and fx.get(op) is not None and st.untouched() and \
                         st.vars_hold_outer()
                 src = reg.get(op) if op in reg else None
                 fresh_ = src is not None and r is not src and inner(r) is not inner(src) and contents(r) == contents(src)
